@@ -144,3 +144,62 @@ package ast
 //@ func (*Task).LocalName
 //@   pure
 //@   ensures result == strTrimPrefix(strTrimPrefix(t.Task, t.Namespace), ":")                       [C06,C01]
+
+// ---- C08 / C09 / C10: merging an included Taskfile's tasks (the body of the loop in Tasks.Merge) ----------
+// dupFree: t1.Get(taskName) was asked and said "absent"; excluded: the exclude list contains the name;
+// varsDone: the include statement's vars were merged into the copy.
+//@ ghost var dupFree bool scratch
+//@ ghost var excluded bool scratch
+//@ ghost var varsDone bool scratch
+
+//@ func (*Tasks).Get
+//@   pure allocates
+//@   nilable tasks result
+//@   ensures result.1 ==> result.0 != nil
+
+//@ func (*Tasks).Merge$1
+//@   init dupFree := false
+//@   init excluded := true
+//@   init varsDone := false
+//@   site (*Task).DeepCopy#1 requires arg0 == v                              -- the copy is of the task being visited   [C08]
+//@   site slices.Contains#1 requires arg0 == include.Excludes && arg1 == name                                          [C08]
+//@   site slices.Contains#1 ghost excluded := result
+//@   site taskNameWithNamespace#1 requires arg0 == dep.Task && arg1 == include.Namespace     -- deps stay in the file   [C08]
+//@   site taskNameWithNamespace#2 requires arg0 == cmd.Task && arg1 == include.Namespace     -- so do task: calls       [C08]
+//@   site taskNameWithNamespace#3 requires arg1 == include.Namespace                         -- and aliases             [C08]
+//@   site taskNameWithNamespace#4 requires arg0 == name && arg1 == include.Namespace         -- <namespace>:<task>      [C08]
+//@   site (*Vars).Merge#1 requires arg0 == task.IncludeVars && arg1 == include.Vars && arg0 != nil                      [C08,C10]
+//@   site (*Vars).Merge#1 ghost varsDone := true
+//@   site (*Vars).DeepCopy#1 requires arg0 == includedTaskfileVars                                                      [C08,C10]
+//@   site (*Tasks).Get#1 requires arg0 == t1 && arg1 == taskName              -- collision test on the final name       [C08,C09]
+//@   site (*Tasks).Get#1 ghost dupFree := !result.1
+//@   site (*Tasks).Set#1 requires arg0 == t1 && arg1 == taskName && arg2 == task                                        [C08]
+//@   site (*Tasks).Set#1 requires dupFree                                     -- never overwrite an existing task       [C08,C09]
+//@   site (*Tasks).Set#1 requires !excluded                                   -- excluded tasks are not merged          [C08]
+//@   site (*Tasks).Set#1 requires task.Internal == (v.Internal || (include != nil && include.Internal))                 [C08]
+//@   site (*Tasks).Set#1 requires include.Flatten || (task.Task == taskName && task.Namespace == include.Namespace)     [C08]
+//@   site (*Tasks).Set#1 requires include.AdvancedImport ==> varsDone      -- the include's vars reach every copy       [C08,C10]
+
+// The alias block after the loop only touches the default task if it was merged (it may have been excluded).
+//@ func (*Tasks).Merge
+//@   sweep                                                                                                              [C16]
+
+// Iterators over the ordered maps call the loop body for every element; the body may change whatever its own
+// contract allows, but not the variables captured by the surrounding function.
+//@ fnspec omIter
+//@   modifies heap, om_has, om_val, om_len, om_key
+//@   preserves cells
+//@ func (*Tasks).All
+//@   trusted
+//@   pure allocates
+//@   nilable t
+//@   result fnspec omIter
+//@ func (*Vars).All
+//@   trusted
+//@   pure allocates
+//@   nilable vars
+//@   result fnspec omIter
+//@ func (*Vars).Merge
+//@   trusted
+//@   modifies om_has, om_val, om_len, om_key
+//@   nilable vars other include
